@@ -184,6 +184,9 @@ def scenarios(ctx):
                            inpubs=((2, False, False, 9, 'short'),),
                            budgets=dict(connect=2, connack=1, badconnack=1, pub=1, sub=1, unsub=1 if not q else 0, ack=1,
                                         lose=1, rebuild=1, disconnect=1, tick=1 if q else 2, inpub=1)))
+    out.append(Scn('pubsub-lost-before-connect', profile='pubsub', mode='async', closing=False, lose_new=True,
+                   connects=[(True, 0, 4), (False, 2, 3)], reconnects=[(True, 0, 4)], pub_qos=(1,),
+                   budgets=dict(connect=1, connack=1, reconn2=1, pub=1, sub=1, lose=2, rebuild=1, tick=1)))
     out.append(Std('reenter-ack-disconnect', profile='pub', mode='async', init=(('connect', 0, True, 0, 4), ('connack', 0, 0, False)),
                    reenter=('ok:pub>disconnect',), pub_qos=(1, 2), closing=False, budgets=dict(pub=2, ack=3, tick=1)))
     return out
